@@ -34,6 +34,15 @@ CHECKS = {
         "next on any stream is invented (C06_no_invention, C06_prefix_sound). Tied to the code by random search programs (incl. infinite "
         "producers on bounded prefixes) run on the real engine and in the model with answer sequences diffed; oracle: reference interpreter "
         "multiset, dfs{} run of the same program, membership of each delivered answer."),
+    "C07": dict(text="Full-strength theorems about the Lean model of the interleaving engine, generic in the state type: FAIRNESS with bind "
+        "(C07_fair: every answer of any stream built from interleaving nodes — disjunctions nested under conjunctions, relation calls, "
+        "anyo — is delivered by Solver::next after finitely many steps, whatever the other branches do; proved with a rank measure "
+        "2r+1/2r+2 for mplus and 4^p(2q+4) for bind); the disjunction form of the property's statement (C07_branch); the two examples of "
+        "the statement for ALL step counts (C07_never: within 12 steps; C07_always: the stream is periodic and each period delivers both "
+        "answers, hence infinitely often); depth-first search starves the same disjunction (C07_dfs_unfair_witness). Tied to the code by "
+        "running random and exhaustively arranged disjunctions of infinite producers, silent divergers, statically-true clauses and "
+        "finite goals on the real engine and in the model (first 12 answers diffed); oracle: every branch run alone must see its first "
+        "answers delivered by the combined program within a proportional step budget (a starved branch exhausts it deterministically)."),
     "C18": dict(text="Full-strength theorems (21, for all well-formed domains in both representations, all integers, all predicates): "
         "intersect/diff/is_disjoint/contains/min/max/is_singleton/singleton_value/iteration/==/copy_before/drop_before/From<Vec> of the Lean "
         "model of fd.rs equal the set operations, None exactly on empty results, results well-formed again. The model is tied to fd.rs by "
